@@ -126,7 +126,12 @@ def dkimOp : List String → String
           hexFields [before, mh, after, hookBody, hookHdr, bhUsed, sigUsed] with
     | some hc, some bc, some names, some selector, some domain, some ts, some [before, mh, after, hookBody, hookHdr, bhUsed, sigUsed] =>
       let cfg : Cfg := ⟨algName alg, selector, domain, names, hc, bc⟩
-      match oracle cfg ts before after hookBody hookHdr bhUsed sigUsed (flags.startsWith "1") (flags.endsWith "1") with
+      let flag (k : Nat) : Bool := flags.toList.getD k '0' == '1'
+      match oracle cfg ts before after hookBody hookHdr bhUsed sigUsed (flag 0) (flag 1) with
+      | (some e, _) => propfail e
+      | (none, _) =>
+      if !(flag 2) then propfail "public-sign-entry-point-differs-from-the-fixed-time-path" else
+      match oracle cfg ts before after hookBody hookHdr bhUsed sigUsed (flag 0) (flag 1) with
       | (some e, _) => propfail e
       | (none, finding) =>
         -- the model
